@@ -30,11 +30,15 @@ STALE = {"AgreesWithCarbon", "ExactlyOne", "MovesB"}
 
 # ------------------------------------------------------------------ model checking
 def model_check(ctx):
+    # WithUpd = histories with address updates next to add/remove (a much larger space): quick checks the
+    # add/remove space of n3/P3 as before and the update space for fewer positions; thorough all with updates
     if ctx.quick():
-        grid = [dict(Shape="n3", R=2, P=3), dict(Shape="n2", R=3, P=4)]
+        grid = [dict(Shape="n3", R=2, P=3, WithUpd=False), dict(Shape="n3", R=2, P=2, WithUpd=True),
+                dict(Shape="n2", R=3, P=4, WithUpd=True)]
     else:
         grid = [dict(Shape="n3", R=2, P=4), dict(Shape="n2", R=3, P=5), dict(Shape="n4", R=2, P=3),
                 dict(Shape="n4i", R=2, P=3), dict(Shape="n3", R=3, P=3)]
+        grid = [dict(c, WithUpd=True) for c in grid]
     for c in grid:
         ctx.tlc("HashRing", "HashRing_mc.cfg", consts=dict(c, Dev="none"), workers=6, timeout=3000)
     # non-vacuity: each deviation is rejected by the invariant it is about
@@ -45,7 +49,8 @@ def model_check(ctx):
     if ctx.quick():
         expect = {k: expect[k] for k in ("bisect_right", "sort_pos_only", "stale_ring_on_same_host")}
     for dev, invs in expect.items():
-        r = ctx.tlc("HashRing", "HashRing_mc.cfg", consts=dict(Shape="n3", R=2, P=3, Dev=dev), workers=4,
+        upd = dev == "stale_ring_on_same_host" or not ctx.quick()
+        r = ctx.tlc("HashRing", "HashRing_mc.cfg", consts=dict(Shape="n3", R=2, P=3, WithUpd=upd, Dev=dev), workers=4,
                     expect_ok=False, count=False, timeout=1200)
         if r["violated"] not in invs:
             raise Machinery("deviation %s is not rejected by the model invariants (violated=%s; vacuity); log %s" % (
@@ -55,11 +60,20 @@ def model_check(ctx):
     cfg = "SPECIFICATION Spec\nINVARIANTS AddMovesOnlyToNew RemoveMovesOnlyOwned UpdateMovesOnlyBetween\nCHECK_DEADLOCK FALSE\n"
     with open(os.path.join(ctx.specdir(), "HashRing_moves.cfg"), "w") as f:
         f.write(cfg)
-    r = ctx.tlc("HashRing", "HashRing_moves.cfg", consts=dict(Shape="n3", R=2, P=3, Dev="mod_n"), workers=4,
+    r = ctx.tlc("HashRing", "HashRing_moves.cfg", consts=dict(Shape="n3", R=2, P=3, WithUpd=not ctx.quick(), Dev="mod_n"), workers=4,
                 expect_ok=False, count=False, timeout=1200)
     if r["violated"] not in ("AddMovesOnlyToNew", "RemoveMovesOnlyOwned", "UpdateMovesOnlyBetween"):
         raise Machinery("modulo hashing does not violate the minimal-movement invariants (vacuity); log %s" % r["log"])
     caught["mod_n(moves)"] = r["violated"]
+    # ... and the one about address updates alone: with modulo hashing over the sorted member set an update
+    # moves a key between two uninvolved nodes only when 4 of 5 nodes are members ([1,2,3,5] -> [2,3,4,5])
+    with open(os.path.join(ctx.specdir(), "HashRing_updmoves.cfg"), "w") as f:
+        f.write("SPECIFICATION Spec\nINVARIANTS UpdateMovesOnlyBetween\nCHECK_DEADLOCK FALSE\n")
+    r = ctx.tlc("HashRing", "HashRing_updmoves.cfg", consts=dict(Shape="n5", R=1, P=2, WithUpd=True, Dev="mod_n"), workers=4,
+                expect_ok=False, count=False, timeout=1200)
+    if r["violated"] != "UpdateMovesOnlyBetween":
+        raise Machinery("modulo hashing does not violate UpdateMovesOnlyBetween (vacuity); log %s" % r["log"])
+    caught["mod_n(update moves)"] = r["violated"]
     ctx.cov["deviations_rejected"] = caught
 
 
